@@ -48,7 +48,8 @@ RULE = ('template trees over 13 node kinds (constant, table hold/jump/linear, po
         'junction (correctly rounded double of the exact rational) + interior points + t = duration; plotting.render at '
         'sample rates 10, 20, 5, 2.5, 30, 3, 12, 6, 1.5, 2.4, 4.8, 24, 7, 14, 100, 50, 40 (int / float / Fraction / TimeType); '
         'deterministic family duration x position x form x shape x count (quick: 90 of them, thorough: every '
-        'duration x position x form x shape); values compared under the tolerance 2^-30, everything else exactly.  Flagged '
+        'duration x position x form x shape); values compared under the tolerance 2^-30, everything else exactly.  Repetition '
+        'counts / loop ranges computed as T/d from decimal floats whose quotient is an ulp below / above the integer.  Flagged '
         'family of three-entry tables at a non-zero decimal offset (known finding).  Variations of the generic stream: pure '
         'constants as Python numbers, parameters as Scope object, parameters as numpy scalars (float64 / int64 / uint16); '
         'edge family: create_program defaults, right-only constant channel of ArithmeticAtomicPT, channel ids -1 / -2 '
@@ -159,6 +160,8 @@ def expr_str(e):
     if k == 'q':                      # decimal stream: literal with an exact rational value, written in a given form
         v = F(e[1])
         return repr(float(v)) if e[2] in ('float', 'dec_str') else '(%d/%d)' % (v.numerator, v.denominator)
+    if k == 'dv':
+        return '(%s / %s)' % (expr_str(e[1]), e[2])
     return '(%s %s %s)' % (expr_str(e[1]), k, expr_str(e[2]))
 
 
@@ -507,6 +510,9 @@ def g_expr(e, nm):
         return '(EC %s)' % gQ(F(e[1]))
     if k == '/':
         return '(EMul %s (EC %s))' % (g_expr(e[1], nm), gQ(1 / F(e[2][1])))
+    if k == 'dv':                     # division by a top-level parameter of known exact value (never rebound in these trees)
+        nm.p(e[2])
+        return '(EMul %s (EC %s))' % (g_expr(e[1], nm), gQ(1 / F(e[3])))
     return '(%s %s %s)' % ({'+': 'EAdd', '-': 'ESub', '*': 'EMul'}[k], g_expr(e[1], nm), g_expr(e[2], nm))
 
 
@@ -661,7 +667,7 @@ def histogram_keys(case, obs):
             keys.append('dec-rate:%s' % r)
         if obs.get('render_off_grid'):
             keys.append('dec-render-linspace-off-by-ulp')
-    for tag in ('selfmap', 'alias', 'dropped', 'tname_shape', 'multizero', 'dec_form', 'nptypes'):
+    for tag in ('selfmap', 'alias', 'dropped', 'tname_shape', 'multizero', 'dec_form', 'nptypes', 'nearint'):
         if tag in case:
             keys.append('%s:%s' % (tag, case[tag]))
     for tag in ('tname', 'warm', 'top_none', 'idx_rebound', 'multi_zero', 'dec_inner', 'numobj', 'as_scope', 'edge'):
@@ -884,8 +890,8 @@ MANIFEST = {
                   'sampling), and the denotation is evaluated directly on the implementation as the specification oracle. '
                   'Round 4: decimal stream (Coq case constructor CDec): durations and sample rates off the dyadic grid through '
                   'real templates, compared with the exact rational model and denotation under the declared tolerance 2^-30 '
-                  '(durations / channels / junction assignment exact); C01_repetition_restarts / C01_repetition_boundary: the '
-                  'model restarts a repeated body exactly at k * duration for every rational duration (the reference the '
+                  '(durations / channels / junction assignment exact); C01_repetition_restarts / C01_repetition_boundary / C01_sequence_restarts: the '
+                  'model restarts a repeated body exactly at k * duration, and a sequence member exactly at the sum of the durations before it, for every rational duration (the reference the '
                   'stream checks the code against; seeded change C01-5 = boundaries accumulated in binary64 is caught). '
                   'Found and repaired in /repo through the new streams: NaN as first sample of a time reversed table with '
                   'exact-rational entry times, spurious padding entry for mixed exact / float final times (9148363), '
